@@ -495,6 +495,24 @@ VERUS_UNITS = {
     # property -> (extractor, generated file, minimum number of verified items (vacuity guard), back end label)
     "C12": ("extract.py", "bits_gen.rs", 20, "verus / z3 (bit_vector)"),
     "C13": ("extract_radix.py", "radix_gen.rs", 18, "verus / z3 (loop invariant, nonlinear_arith, bit_vector lemmas)"),
+    "C15": ("extract_batch.py", "batch_gen.rs", 6, "verus / z3 (linear integer arithmetic)"),
+}
+VERUS_FNS = {
+    "C13": ["from_js_str_radix::can_not_overflow [verus]", "from_js_str_radix::to_digit [verus]",
+            "from_js_str_radix u64 accumulation loop [verus, iteration frame rewritten]"],
+    "C15": ["compute_batch_offsets [verus]"],
+}
+VERUS_ASSUMPTIONS = {
+    "C13": [
+        "vstd's specifications of u64::from(u8), usize::from(u8), u8::wrapping_sub, u8::saturating_add, size_of::<u64>() and Vec indexing are trusted",
+        "the iteration frame (`for c in src` over JsStr::iter().map(u8::try_from(..).expect(..))) is replaced by an indexed loop over &Vec<u8>; the u16->u8 conversion and its expect are outside the Verus unit (Kani obligations c13_* cover them up to their bounds)",
+        "`result as f64` (IEEE round-to-nearest of the exact integer) and the f64 accumulation branch are outside the Verus unit",
+        "Verus 0.2026.09.13 / Z3 are trusted; termination is proved (decreases clauses)"],
+    "C15": [
+        "BATCH_SIZE = size_of::<u64>() is folded to the literal 8 in the Verus text (the Kani obligation c15_batch_offsets_partition uses the real constant)",
+        "vstd's specification of usize::min is trusted; usize is 64-bit or 32-bit (Verus' arch-size abstraction)",
+        "the copy loops themselves (raw pointers, AtomicU8/AtomicU64) are outside the Verus unit: lemma_phase* derive their index obligations from the contract of compute_batch_offsets only; the loops' memory behaviour is checked by the bounded Kani harnesses c15x_mem*",
+        "Verus 0.2026.09.13 / Z3 are trusted"],
 }
 
 
@@ -843,15 +861,9 @@ def finish(prop, tier, seed, t0, mine, results, undecided, violations, known_hit
         v_all = v_ok + int(verus.get("errors") or 0)
         verus_note = (" Verus unit (%s): %d of %d items verified, unbounded (loop invariants / bit-vector lemmas), on text "
                       "extracted mechanically from the real source on this run." % (verus.get("back_end"), v_ok, v_all))
-        if prop == "C13":
-            for f in ("from_js_str_radix::can_not_overflow [verus]", "from_js_str_radix::to_digit [verus]",
-                      "from_js_str_radix u64 accumulation loop [verus, iteration frame rewritten]"):
-                fns.add(f)
-            verus["assumptions"] = [
-                "vstd's specifications of u64::from(u8), usize::from(u8), u8::wrapping_sub, u8::saturating_add, size_of::<u64>() and Vec indexing are trusted",
-                "the iteration frame (`for c in src` over JsStr::iter().map(u8::try_from(..).expect(..))) is replaced by an indexed loop over &Vec<u8>; the u16->u8 conversion and its expect are outside the Verus unit (Kani obligations c13_* cover them up to their bounds)",
-                "`result as f64` (IEEE round-to-nearest of the exact integer) and the f64 accumulation branch are outside the Verus unit",
-                "Verus 0.2026.09.13 / Z3 are trusted; termination is proved (decreases clauses)"]
+        for f in VERUS_FNS.get(prop, []):
+            fns.add(f)
+        verus["assumptions"] = VERUS_ASSUMPTIONS.get(prop, [])
     cov = {
         "obligations": proof_obl,
         "discharged": proof_dis,
